@@ -44,8 +44,10 @@ pub struct WireCase {
 
 pub struct WireSim;
 
-const AUTHS_HTTP: [&str; 7] = ["a.test", "a.test:80", "a.test:8080", "10.0.0.7", "10.0.0.7:8080", "[::1]", "[::1]:8080"];
-const AUTHS_HTTPS: [&str; 6] = ["a.test", "a.test:443", "a.test:8443", "127.0.0.1", "[::1]", "[::1]:8443"];
+// each list has the scheme's own default port, the *other* scheme's default port (which is not a
+// default here and must appear in Host), a non-default port and no port
+const AUTHS_HTTP: [&str; 10] = ["a.test", "a.test:80", "a.test:8080", "a.test:443", "10.0.0.7", "10.0.0.7:8080", "10.0.0.7:443", "[::1]", "[::1]:8080", "[::1]:443"];
+const AUTHS_HTTPS: [&str; 9] = ["a.test", "a.test:443", "a.test:8443", "a.test:80", "127.0.0.1", "127.0.0.1:80", "[::1]", "[::1]:8443", "[::1]:80"];
 const PATHS: [&str; 8] = ["", "/", "/a/b", "/a%20b", "//x", "/a/./b", "/~u/x.html", "/r"];
 const QUERIES: [&str; 5] = ["", "q=1", "a=b&c=%2F", "x", "a=b?c"];
 const METHODS: [&str; 6] = ["GET", "POST", "CONNECT", "OPTIONS", "PURGE", "DELETE"];
